@@ -364,6 +364,9 @@ def run(repo, rep):
     rep.run_borrowed(_c06, {"C06-d": "C08-q"}, repo, only_sites=("generate_biases", "generate_weights"))
     rep.run_borrowed(_c15, {"C15-c": "C08-q"}, repo, only_sites=("architecture_features.py",))
     rep.clause("C08-r", "the single weight buffer is as large as the largest depth slice over all cores: max_range_bytes is the maximum of the per-parity slice sizes (double_buffer_sizes), not of single (core, slice) ranges")
+    rep.clause("C08-s", "an encoded stream / record set is shared only under exact equality of the whole compression configuration: the cache hit in the compressor and the flash de-duplication in the linear allocator compare the configuration objects with ==, no component, no tolerance")
+    rep.clause("C08-t", "the kernel axes reversed for a transpose convolution are the axes the same function multiplies as the kernel size (H and W of the HWIO volume)")
+    rule_round9(repo, rep)
     rule_max_range_bytes(repo, rep)
     rule_round5(repo, rep)
     rule_forced_output_quantisation(repo, rep)
@@ -601,3 +604,54 @@ def rule_max_range_bytes(repo, rep):
     ok = len(rets) == 1 and "double_buffer_sizes" in t and "encoded_ranges" not in t and call_name(rets[0].value) == "max"
     rep.check(ok, "C08-r", "ethosu/vela/weight_compressor.py:NpuWeightTensor.max_range_bytes", "max_range_bytes = max(double_buffer_sizes): the largest slice, all cores together",
               f"`{t[:90]}`: encoded_ranges has one entry per (core, slice); on Ethos-U65-512 the buffer the scheduler sizes with it is half a slice: the weight DMA of 9408 bytes overruns a 4704-byte buffer and core 1's addresses lie outside it")
+
+
+def rule_round9(repo, rep):
+    """(s) Two places let an operator use bytes that were encoded for another: CompressedWeightCache hits in
+    encode_weight_and_scale_tensor and the de-duplication of flash addresses in linear_allocate_live_ranges. In both the guard is an
+    equality of whole configuration tuples (`<a>.weight_compression_config == <b>...`, `<cached>.scale_compression_config == scc`);
+    a comparison of one component (value id) or a tolerance (`allclose`) shares streams between different encodings. (t) the flip."""
+    wc = repo.mod("weight_compressor")
+    f = wc.func("encode_weight_and_scale_tensor")
+    site = f"{WC}:encode_weight_and_scale_tensor"
+
+    def whole_eq(test, attr):
+        for c in ast.walk(test):
+            if isinstance(c, ast.Compare) and len(c.ops) == 1 and isinstance(c.ops[0], ast.Eq):
+                l, r = str(norm(c.left)), str(norm(c.comparators[0]))
+                if (l.endswith("." + attr) or r.endswith("." + attr)) and not isinstance(test, ast.BoolOp):
+                    return True
+                if (l.endswith("." + attr) or r.endswith("." + attr)) and isinstance(test, ast.BoolOp) and isinstance(test.op, ast.And):
+                    return True
+        return False
+
+    hits = [i for i in ast.walk(f) if isinstance(i, ast.If) and any(isinstance(r, ast.Return) and r.value is not None and "tens_cached" in str(norm(r.value)) for r in i.body)]
+    if len(hits) != 1:
+        raise AnalysisError(f"encode_weight_and_scale_tensor: the cache-hit return was not found ({len(hits)})")
+    t = hits[0].test
+    tol = [c for c in ast.walk(t) if isinstance(c, ast.Call) and (call_name(c) or "").split(".")[-1] in ("allclose", "isclose", "array_equal", "approx")]
+    rep.check(whole_eq(t, "scale_compression_config") and not tol and not isinstance(t, ast.BoolOp), "C08-s", site, f"`{norm(t)[:100]}`: the cached records are reused only for an equal scale configuration",
+              f"`{norm(t)[:140]}`: scales that differ by a few float32 ulps count as equal: the second operator reuses records whose 31-bit multipliers came from the first operator's scales")
+    ta = repo.mod("tensor_allocation")
+    g = ta.func("linear_allocate_live_ranges")
+    gsite = "ethosu/vela/tensor_allocation.py:linear_allocate_live_ranges"
+    dd = [i for i in ast.walk(g) if isinstance(i, ast.If) and any(isinstance(a, ast.Assign) and str(norm(a.targets[0])) == "address" and str(norm(a.value)).endswith(".address") for a in i.body)
+          and "compression_config" in str(norm(i.test)) + " ".join(str(norm(x)) for x in ast.walk(g) if isinstance(x, ast.Assign) and any(isinstance(n_, ast.Name) and n_.id in [y.id for y in ast.walk(i.test) if isinstance(y, ast.Name)] for n_ in x.targets))]
+    if len(dd) != 1:
+        raise AnalysisError(f"linear_allocate_live_ranges: the weight de-duplication test was not found ({len(dd)})")
+    rep.check(whole_eq(dd[0].test, "weight_compression_config") and not isinstance(dd[0].test, ast.BoolOp), "C08-s", gsite, f"`{norm(dd[0].test)[:100]}`: two encoded tensors share a flash address only for equal compression configurations",
+              f"`{norm(dd[0].test)[:140]}`: encodings of one weight constant with different block depth or depth slices get the same flash address and overwrite each other")
+    ks = [a for a in ast.walk(f) if isinstance(a, ast.Assign) and str(norm(a.targets[0])) == "kernel_size" and isinstance(a.value, ast.BinOp) and isinstance(a.value.op, ast.Mult)]
+    axes = set()
+    for a in ks:
+        for sd in (a.value.left, a.value.right):
+            if isinstance(sd, ast.Subscript) and str(norm(sd.value)) == "weights.shape" and isinstance(sd.slice, ast.Constant):
+                axes.add(sd.slice.value)
+    flips = [c for c in ast.walk(f) if isinstance(c, ast.Call) and (call_name(c) or "").split(".")[-1] == "flip"]
+    if len(axes) != 2 or len(flips) != 1:
+        raise AnalysisError(f"encode_weight_and_scale_tensor: kernel-size axes {sorted(axes)} / {len(flips)} flip calls")
+    ax = [k.value for k in flips[0].keywords if k.arg == "axis"] + flips[0].args[1:2]
+    got = try_fold(ax[0], default=None) if ax else None
+    got = set(got) if isinstance(got, (tuple, list)) else ({got} if isinstance(got, int) else None)
+    rep.check(got == axes, "C08-t", site, f"`{norm(flips[0])}` reverses the axes {sorted(axes)} that `kernel_size = {norm(ks[0].value)}` treats as kernel height and width",
+              f"`{norm(flips[0])}` reverses axes {sorted(got) if got else '?'}; the volume is HWIO here (kernel size = shape[{sorted(axes)[0]}] * shape[{sorted(axes)[1]}]): the IFM channel axis is reversed instead of a kernel axis")
